@@ -108,9 +108,13 @@ macro_rules! apply {
             Op::Drain(st, en, take) => {
                 let mut d = $s.drain((st.clone(), en.clone()));
                 let mut got = String::new();
-                for _ in 0..*take { if let Some(c) = d.next() { got.push(c); } }
+                // take & 3 chars from the front, then take >> 2 from the back, then drop the rest
+                for _ in 0..(*take & 3) { if let Some(c) = d.next() { got.push(c); } }
+                let mut back = String::new();
+                for _ in 0..(*take >> 2) { if let Some(c) = d.next_back() { back.push(c); } }
+                let hint = d.size_hint();
                 drop(d);
-                format!("taken:{}", hex(got.as_bytes()))
+                format!("taken:{}:{}:{:?}", hex(got.as_bytes()), hex(back.as_bytes()), hint)
             }
             Op::ReplaceRange(st, en, t) => { $s.replace_range((st.clone(), en.clone()), t); "unit".to_string() }
             Op::SplitOff(i) => { let o = $s.split_off(*i); format!("tail:{}", hex(o.as_bytes())) }
@@ -170,7 +174,7 @@ fn gen_op(rng: &mut Rng, len: usize, nchars: usize) -> Op {
             let boom = if rng.chance(1, 3) { rng.usize_below(nchars + 1) } else { usize::MAX };
             Op::Retain((0..nchars + 1).map(|i| if i == boom { 2 } else if rng.chance(1, 2) { 1 } else { 0 }).collect())
         }
-        68..=76 => Op::Drain(pick_bound(rng, len), pick_bound(rng, len), rng.usize_below(4)),
+        68..=76 => Op::Drain(pick_bound(rng, len), pick_bound(rng, len), rng.usize_below(12)),
         77..=84 => { let n = rng.usize_below(4); Op::ReplaceRange(pick_bound(rng, len), pick_bound(rng, len), text(rng, n)) }
         85..=90 => Op::SplitOff(pick_index(rng, len)),
         91..=92 => { let n = rng.usize_below(5); Op::Extend(text(rng, n)) }
